@@ -103,6 +103,7 @@ def main():
         old = {k: v for k, v in json.load(open(ip)).items() if k.startswith("seeded-")}
     old.update(idx)
     json.dump(old, open(ip, "w"), indent=1, sort_keys=True)
+    open(os.path.join(OUT, "BASE"), "w").write(subprocess.check_output(["git", "-C", REPO, "rev-parse", "HEAD"], text=True).strip() + "\n")
     print("wrote %d mutants" % len(idx))
 
 if __name__ == "__main__":
